@@ -127,8 +127,13 @@ def req(d: dict[str, Any]) -> str:
 
 
 def waiter(w: R.StepWorkerWaiter) -> str:
-    return "W %s %s %d %s %d %s %d" % (waiter_id(w.waiter_id), ev(w.event), ET.TY_ID[w.waiting_for_event], req(w.requirements),
-                                       1 if w.has_requirements else 0, opt_ev(w.resolved_event), 1 if w.timed_out else 0)
+    """the waiter and the attempt record of the invocation suspended in it (repair of C08/…:lineage_suspended_in_wait;
+    a tree without those fields encodes as an empty record, which the model of the repaired code contradicts)"""
+    return "W %s %s %d %s %d %s %d %s %s %s %s %s" % (
+        waiter_id(w.waiter_id), ev(w.event), ET.TY_ID[w.waiting_for_event], req(w.requirements),
+        1 if w.has_requirements else 0, opt_ev(w.resolved_event), 1 if w.timed_out else 0,
+        num(getattr(w, "attempts", 0)), num(getattr(w, "first_attempt_at", None)), exc(getattr(w, "last_exception", None)),
+        num(getattr(w, "last_failed_at", None)), rc(getattr(w, "recovery_counts", {})))
 
 
 def collected(c: dict[str, list[Event]]) -> str:
